@@ -9,9 +9,10 @@ from .tlc import MachineryError
 INV = ["C08_NameFirst", "C08_PrefixSecond", "C08_CtorSeesEarlierOnly"]
 QUICK = dict(attr=["none", "xA", "xInt", "privA", "xA_class", "xA_base", "peer", "inhA"], ctor=["none", "xA", "peer"],
              rx=["missing", "A", "B", "zero", "none"], rcx=["missing", "A", "none"], mode=["none", "xA", "c1", "yA"])
-THOROUGH = dict(attr=["none", "xA", "xB", "xInt", "xStr", "xList", "yA", "privA", "xA_class", "xA_init", "xA_base", "peer", "xA_peer", "inhA"],
-                ctor=["none", "xA", "xInt", "peer", "priv"],
-                rx=["missing", "A", "B", "C", "zero", "int7", "empty", "none", "list"], rcx=["missing", "A", "B", "none"],
+# about 330 000 robot definitions (TLC builds the universe as one set: it has to stay below 1 000 000 elements)
+THOROUGH = dict(attr=["none", "xA", "xInt", "xStr", "yA", "privA", "xA_class", "xA_init", "xA_base", "peer", "xA_peer", "inhA"],
+                ctor=["none", "xA", "peer", "priv"],
+                rx=["missing", "A", "B", "zero", "empty", "none", "list"], rcx=["missing", "A", "none"],
                 mode=["none", "xA", "c1", "yA"])
 
 
